@@ -862,7 +862,7 @@ fn check_program(p: &Node, w: &mut Worker, l: &mut Local, st: &Stats) {
     let none: Vec<BlueprintDefinitionInit> = vec![];
     let instrumented = match catch(|| w.validator.validate(&code, none.iter())) {
         Err(pn) => {
-            l.violation("validate-panic", format!("validate panicked: {pn}"), case(json!(null)));
+            crate::util::violation(l, "validate-panic", format!("validate panicked: {pn}"), case(json!(null)));
             return;
         }
         Ok(Err(e)) => {
@@ -887,7 +887,7 @@ fn check_program(p: &Node, w: &mut Worker, l: &mut Local, st: &Stats) {
     let m_i = match wasmi::Module::new(&w.raw_engine, &instrumented[..]) {
         Ok(m) => m,
         Err(e) => {
-            l.violation("instrumented-module-invalid", format!("wasmi (validating) rejects the instrumented module: {e}"), case(json!(null)));
+            crate::util::violation(l, "instrumented-module-invalid", format!("wasmi (validating) rejects the instrumented module: {e}"), case(json!(null)));
             return;
         }
     };
@@ -931,27 +931,27 @@ fn check_program(p: &Node, w: &mut Worker, l: &mut Local, st: &Stats) {
                 mc_core::machinery_error(&format!("C46 reference interpreter and uninstrumented wasmi disagree on {} args ({a},{b}): {} vs {}", show(p), d(&want), d(&ru)));
             }
             if ri1 != want || ri2 != want {
-                l.violation("result-differs:instrumented", format!("instrumented code gives {} / {}, original gives {}", d(&ri1), d(&ri2), d(&want)), case(detail()));
+                crate::util::violation(l, "result-differs:instrumented", format!("instrumented code gives {} / {}, original gives {}", d(&ri1), d(&ri2), d(&want)), case(detail()));
                 bad = true;
                 break 'args;
             }
             if rc != want || rw != want {
-                l.violation("result-differs:engine", format!("instrumented code through the engine gives {} (cold) / {} (warm), original gives {}", d(&rc), d(&rw), d(&want)), case(detail()));
+                crate::util::violation(l, "result-differs:engine", format!("instrumented code through the engine gives {} (cold) / {} (warm), original gives {}", d(&rc), d(&rw), d(&want)), case(detail()));
                 bad = true;
                 break 'args;
             }
             if c1 != c2 {
-                l.violation("cost-differs:repeat", format!("two fresh instances charged {c1} and {c2}"), case(detail()));
+                crate::util::violation(l, "cost-differs:repeat", format!("two fresh instances charged {c1} and {c2}"), case(detail()));
                 bad = true;
                 break 'args;
             }
             if cc != cw {
-                l.violation("cost-differs:cold-warm", format!("cold engine instance charged {cc}, cache-warm instance {cw}"), case(detail()));
+                crate::util::violation(l, "cost-differs:cold-warm", format!("cold engine instance charged {cc}, cache-warm instance {cw}"), case(detail()));
                 bad = true;
                 break 'args;
             }
             if c1 == 0 || cc == 0 {
-                l.violation("cost-zero", "an execution was charged nothing".to_string(), case(detail()));
+                crate::util::violation(l, "cost-zero", "an execution was charged nothing".to_string(), case(detail()));
                 bad = true;
                 break 'args;
             }
@@ -962,7 +962,7 @@ fn check_program(p: &Node, w: &mut Worker, l: &mut Local, st: &Stats) {
                 Some((k1, kc, first, n)) => {
                     *n += 1;
                     if *k1 != c1 || *kc != cc {
-                        l.violation(
+                        crate::util::violation(l, 
                             "cost-differs:same-path",
                             format!("args {:?} and ({a},{b}) take the same code path (reference trace) but were charged {}/{} vs {}/{}", first, k1, kc, c1, cc),
                             case(detail()),
